@@ -102,6 +102,7 @@ class NumberExpr(number_expr.NumberExpr, internal.RWValue[decimal.Decimal]):
         self._number_add_expr = add_expr
 
     def _iaddsub(self: 'NumberExpr', other: 'NumberExpr', op: Literal['+', '-']) -> 'NumberExpr':
+        other = copy.deepcopy(other)  # never consume or edit the right operand (or its document)
         mul_expr = _as_mul_expr(other)
         add_op = AddOp.from_raw_text(op)
         self.token_store.insert_after(self.last_token, [
@@ -179,6 +180,7 @@ class NumberExpr(number_expr.NumberExpr, internal.RWValue[decimal.Decimal]):
         return other - self
 
     def _imuldiv(self: 'NumberExpr', other: 'NumberExpr', op: Literal['*', '/']) -> 'NumberExpr':
+        other = copy.deepcopy(other)  # never consume or edit the right operand (or its document)
         self_mul_expr = _as_mul_expr(self)
         atom_expr = _as_atom_expr(other)
         mul_op = MulOp.from_raw_text(op)
